@@ -20,7 +20,8 @@ CLAIMS = {
          "constant-table extraction from HIR + exhaustive evaluation; unit analysis", "3.9, 4 C15"),
  "C19": ("E-FFI + E-LIN + E-UNITS on oxidd-ffi-c: C symbol <-> Rust operation wiring and operand order, equal export sets of the "
          "three files, from_raw only under ManuallyDrop::new (borrow) or drop (unref), no entry point but the documented one "
-         "consumes handles and that one does so unconditionally, failure -> INVALID mapping, operand validation in op1/op2/op3. "
+         "consumes handles and that one does so unconditionally, failure -> INVALID mapping, operand validation in op1/op2/op3, no "
+         "exported function returns one of its argument handles except the reference-taking *_ref functions. "
          "Call-sequence equivalence with the Rust API is not decided.",
          "HIR/MIR who-may-call and typestate rules", "3.7, 4 C19"),
  "C16": ("E-VNM + E-EVENT + E-UNITS: the name map's push/insert, displace/remove and free discipline on every path; the "
@@ -36,51 +37,65 @@ CLAIMS = {
          "probe-loop guards. Necessary conditions of `free <= #FREE slots` (termination of lookups, intact probe chains); set "
          "semantics over operation sequences is not decided.",
          "MIR dataflow/dominance rules with a frozen writer table", "3.8, 4 C17"),
- "C02": ("E-TABLE.{bdd,bcdd,shortcut} + E-WRAP + E-UNITS + E-CACHE: the terminal/base-case table of all 8 BDD connectives and "
+ "C02": ("E-TABLE.{bdd,bcdd,shortcut,step} + E-WRAP + E-UNITS + E-CACHE: the terminal/base-case table of all 8 BDD connectives and "
          "BCDD's terminal_and/terminal_xor (incl. complement tags) are enumerated over their abstract operand domain and compared "
          "with truth tables; the shortcut prefixes of apply_ite (BDD) and of the ZBDD set operations are interpreted up to the "
          "cache lookup; every BooleanFunction `x_edge` wrapper (BDD, BCDD, ZBDD; ST and MT) is interpreted symbolically and must "
          "denote the connective it is named for; default methods forward to their _edge sibling; var/level units and apply-cache "
-         "key pairing / hit = miss of the bdd and zbdd rules crates. Decides base cases, shortcuts and wiring, not the recursive step.",
+         "key pairing / hit = miss of the bdd and zbdd rules crates; E-TABLE.step: the recursive (Shannon) step of apply_bin, apply_ite, "
+         "apply_not (BDD, BCDD with all complement-tag combinations) and of the ZBDD set operations is interpreted on structured "
+         "abstract operands in every level configuration and compared with the operator for all values of the atoms and decision "
+         "variables (plus variable-order and cache-entry validity). Decides base cases, shortcuts, the inductive step and wiring -- "
+         "the induction itself, memory exhaustion and scheduling are not decided.",
          "abstract interpretation of HIR case tables and wrappers over finite domains", "3.3, 3.4, 4 C02"),
- "C04": ("E-WRAP + E-UNITS + E-CACHE: quantifier wrappers and the BDD/BCDD apply-and-quantify dispatch (dualisation) tables are "
+ "C04": ("E-TABLE.step + E-WRAP + E-UNITS + E-CACHE: quantifier wrappers and the BDD/BCDD apply-and-quantify dispatch (dualisation) tables are "
          "interpreted for all 8 operators and compared with Q v.(f op g) over all operand valuations; var/level units of the "
-         "quantification/substitution code; cache key pairing and hit = miss (restrict's complement tag). Decides tag/dualisation "
-         "plumbing and unit discipline, not the recursion.", "abstract interpretation of HIR dispatch tables", "3.4, 4 C04"),
- "C05": ("E-LIN + E-FREELIST + E-CANON.swap + E-WHO: edge linearity on every non-unwind path of every function body "
+         "quantification/substitution code; cache key pairing and hit = miss (restrict's complement tag); E-TABLE.step: the recursive step of quant, "
+         "apply_quant (all 24 / 7 instances), restrict (incl. its tail-recursive cube walk with complement-edge polarity) and "
+         "substitute (simultaneity: swap tables) of BDD and BCDD interpreted on structured operands and cubes over three modelled "
+         "levels and compared with the fold of cofactors / the cofactor / the simultaneous substitution. Decides tag/dualisation "
+         "plumbing, unit discipline and the inductive step; not substitute_prepare's table construction nor the induction itself.", "abstract interpretation of HIR dispatch tables", "3.4, 4 C04"),
+ "C05": ("E-LIN + E-FREELIST + E-CANON.swap + E-WHO + E-EVENT.gc-order: edge linearity on every non-unwind path of every function body "
          "(drop-elaborated MIR) plus the vetted-destructor table; thread-local free lists and node-count deltas are handed to the "
          "shared store by move only; level_swap releases a node's edges before unlinking children; frozen caller sets of the "
-         "node-removal primitives and their gates. Necessary conditions of exact reference counts: no owned edge is dropped by the "
+         "node-removal primitives and their gates; Manager::gc sweeps all inner-node levels before the terminal table. Necessary conditions of exact reference counts: no owned edge is dropped by the "
          "compiler instead of being released through the manager, on any path incl. every `?`/out-of-memory path; no slot is on two "
          "free lists. Exactness over histories is not decided.",
          "MIR drop-terminator typestate lint (rustc_private driver) + move-only dataflow + who-may-call", "3.1, 3.8, 3.5, 4 C05"),
- "C03": ("E-UNITS + E-UNITS.pre + E-TABLE.reduce + E-CANON.swap + E-WHO: unit analysis (VarNo vs LevelNo, both u32 aliases) over all bodies of the managers, "
+ "C03": ("E-UNITS + E-UNITS.pre + E-TABLE.reduce + E-CANON.swap + E-WHO + E-RAW: unit analysis (VarNo vs LevelNo, both u32 aliases) over all bodies of the managers, "
          "oxidd-reorder and the rules crates, seeded from the declared signatures; inside level_swap, stale stored level numbers "
          "vs positions; all 12 reduce functions interpreted (no redundant node, BCDD then-edge untagged, node inserted at the level "
          "it is created for); set_child before insert and relabel before insert in level_swap; only oxidd-reorder may call the "
-         "level-invariant-breaking primitives. Necessary for 'every node is listed in the level it reports' and 'children on lower levels' after a "
+         "level-invariant-breaking primitives; probe-chain integrity of the per-level open-addressing table (a cut chain "
+         "yields a second node with identical children). Necessary for 'every node is listed in the level it reports' and 'children on lower levels' after a "
          "reordering; does not decide uniqueness/reducedness over histories.",
          "dimension (unit) analysis over type-checked HIR + HIR table interpretation + who-may-call", "3.10, 3.3, 3.5, 4 C03"),
- "C06": ("E-CACHE + E-CACHE.dm + E-EVENT + E-TABLE tags: get/add key pairing, memoised value = returned value, injective and "
+ "C06": ("E-CACHE + E-CACHE.dm + E-CACHE.substid + E-EVENT + E-TABLE tags: get/add key pairing, memoised value = returned value, injective and "
          "name-consistent computed tags, pairwise disjoint tag sets per rules crate; the direct-mapped cache compares and hashes "
          "all key parts, never blocks on the operation path and keeps entries locked between pre_gc and post_gc; gc/reorder/"
-         "add_vars* of both managers emit the invalidation events in order on every path. Decides 'never served for another key' "
+         "add_vars* of both managers emit the invalidation events in order on every path; substitution ids (the cache key of "
+         "substitute) come from one atomic counter wider than the id, range-checked before narrowing. Decides 'never served for another key' "
          "and 'does not outlive gc/reorder' structurally, not eviction-independence as behaviour.",
          "HIR key-table extraction + MIR dominance/post-dominance rules", "3.2, 3.5, 4 C06"),
- "C12": ("E-POST + E-EVENT (cache-validity clause only): all MIR paths of SatCountCache::clear_if_invalid re-establish both "
+ "C12": ("E-SAT + E-CARRY + E-POST + E-EVENT: all MIR paths of SatCountCache::clear_if_invalid re-establish both "
          "label fields and clear on mismatch; clear_if_invalid dominates the counting recursion in every sat_count_edge; "
-         "gc_count is bumped by gc and reorder. The count itself and the big-natural arithmetic are value-level and not decided.",
-         "MIR path enumeration (must-analysis) + dominance", "3.5, 4 C12"),
- "C07": ("E-LOCK + E-FREELIST + E-CACHE.dm (+E-LIN/E-WRAP on the parallel code): lock-order acyclicity over all lock classes, "
+         "gc_count is bumped by gc and reorder; E-SAT: sat_count_edge::inner (BDD, BCDD, ZBDD) interpreted with symbolic numbers "
+         "(terminal base cases, count(node) = (count(c0)+count(c1)) >> 1 over the cofactors seen through the complement tag, "
+         "memoisation under the looked-up key, distinct keys for an edge and its complement); E-CARRY: no computed carry of "
+         "Natural's multi-digit addition is overwritten unread. The exactness of the number types beyond that is not decided.",
+         "HIR interpretation with symbolic numbers + MIR path enumeration / liveness", "3.5, 3.11, 4 C12"),
+ "C07": ("E-LOCK + E-FREELIST + E-CACHE.dm + E-EVENT (+E-LIN/E-WRAP on the parallel code): lock-order acyclicity over all lock classes, "
          "minimal memory orderings of the rc / lock protocols, rc re-read under the level lock, Send/Sync bounds of every unsafe "
          "impl, move-only hand-over of thread-local free lists, non-blocking cache on the operation path and locked cache during "
-         "gc, MT wrappers reach the same algorithm instances. These are necessary conditions (no deadlock by lock order, the "
+         "gc, the gc bracket (try_lock, epoch bump, pre_gc, level sweeps, terminal sweep, post_gc, unlock) on every path of both "
+         "managers, MT wrappers reach the same algorithm instances. These are necessary conditions (no deadlock by lock order, the "
          "stated happens-before edges exist); equivalence to a sequential execution over schedules is NOT decided.",
          "lock-order graph + atomic-ordering table + MIR dataflow rules", "3.6, 4 C07"),
- "C08": ("E-UNITS.pre + E-UNITS + E-LIN + E-CANON.swap + E-WHO on oxidd-reorder: level_swap's stale-number discipline (compare stored numbers with "
+ "C08": ("E-UNITS.pre + E-UNITS + E-LIN + E-CANON.swap + E-WHO + E-PERM on oxidd-reorder: level_swap's stale-number discipline (compare stored numbers with "
          "_pre parameters only, create/relabel nodes with the stale number of their level), no var/level mix-ups, no owned edge "
          "dropped by the compiler, children rewritten before re-insertion (hash under the final key), unchecked insertions "
-         "only, gated entry points. Does not decide that functions are preserved.",
+         "only, gated entry points; the level-permutation loop of set_var_order_common advances only on the element-in-place edge "
+         "(loop invariant) and swaps its three tables together. Does not decide that functions are preserved.",
          "dimension (unit) analysis over HIR + MIR drop lint + ordering/who-may-call rules", "3.10, 3.1, 3.8, 3.5, 4 C08"),
  "C13": ("E-TABLE.pick + E-UNITS: one step of pick_cube_dd_edge / pick_cube_dd_set_edge (BDD and BCDD) interpreted over a "
          "structured abstract node: a forced branch (one child = false) is taken without consulting the choice, otherwise the choice "
@@ -90,25 +105,30 @@ CLAIMS = {
  "C14": ("E-LIN + E-OOM: E-LIN restricted to error exits: on every `?`/Err path of the rules crates, oxidd-dump, oxidd-reorder, the managers "
          "and the FFI crate no owned edge is dropped by the compiler, i.e. everything acquired is released through a guard or "
          "the manager; AllocResult is unwrapped only where allocation cannot fail (static terminals) and process::abort is reached only "
-         "from reviewed sites (2 recorded known findings: level_swap and ZBDDCache::post_reorder_mut abort on OOM). Does not decide "
+         "from reviewed sites (2 recorded known findings: level_swap and ZBDDCache::post_reorder_mut abort on OOM); gc sweeps terminals "
+         "after all levels (one collection frees what a retry needs). Does not decide "
          "state validity after failure.",
          "MIR drop-terminator typestate lint + call-site inventory", "3.1, 3.9, 4 C14"),
- "C09": ("E-WRAP + E-TABLE.{reduce,shortcut}(zbdd) + E-UNITS + E-CACHE: the BooleanVecSet wrappers and the Boolean view of ZBDDs "
+ "C09": ("E-WRAP + E-TABLE.{reduce,shortcut,step}(zbdd) + E-UNITS + E-CACHE: the BooleanVecSet wrappers and the Boolean view of ZBDDs "
          "are interpreted symbolically and must denote the set operation they are named for (incl. subset::<VAL> tags and diff "
          "operand order); the zero-suppression reduce functions and the shortcut prefixes of union/intsec/diff/symm_diff are "
-         "interpreted against set algebra; units and cache key pairing of the zbdd rules crate. The level-comparison recursion is "
-         "not decided.",
+         "interpreted against set algebra; units and cache key pairing of the zbdd rules crate; E-TABLE.step: the recursive step of "
+         "union/intsec/diff/symm_diff, subset0/subset1/change and apply_ite interpreted under zero-suppressed semantics in every "
+         "level configuration. restrict of the Boolean view, make_node and consistency after add_vars are not decided.",
          "abstract interpretation of HIR wrappers", "3.4, 4 C09"),
  "C10": ("E-TABLE + E-WRAP: mtbdd::terminal_bin enumerated over {NaN,0,1,c1,c2,x,y}^2 for 6 operators and all comparison "
          "outcomes, result term compared with the pointwise operator on a grid of extended reals with NaN (neutral/absorbing "
          "shortcuts, operand swaps, operator tag used for recursion and caching); PseudoBooleanFunction wrappers wired to the "
          "operator they are named for; I64 Add/Sub/Mul/Div interpreted over sign classes with checked_* = None exactly on "
-         "overflow-capable sign pairs (saturation to the infinity of the exact result's sign); cache key pairing.",
+         "overflow-capable sign pairs (saturation to the infinity of the exact result's sign); cache key pairing; E-TABLE.step: the "
+         "recursive step of apply_bin (6 operators, incl. terminal operands), apply_ite and restrict over extended reals with NaN.",
          "abstract interpretation of HIR case tables", "3.3, 3.4, 4 C10"),
  "C11": ("E-TABLE + E-WRAP: tdd::terminal_bin enumerated over {F,U,T,x,y}^2 for 8 operators and compared with the Kleene / "
          "Lukasiewicz tables named in the property; TVLFunction wrappers and default constant constructors (f/t/u) forward to "
          "the method they are named for; apply_ite_rec's shortcut prefix interpreted against the pointwise decision list; cache "
-         "key pairing.", "abstract interpretation of HIR case tables", "3.3, 3.4, 4 C11"),
+         "key pairing; E-TABLE.step: the ternary recursive step of apply_bin (8 operators), apply_ite_rec and apply_not over "
+         "three-valued atoms and variables; E-UNITS incl. derived units (eval's packed slot addressing uses level-derived index "
+         "and shift).", "abstract interpretation of HIR case tables", "3.3, 3.4, 4 C11"),
 }
 checks = []
 for pid, (text, tech, ref) in sorted(CLAIMS.items()):
